@@ -92,15 +92,15 @@ def full_lib_so(sanitize=False):
     if sanitize not in _libso:
         sc = scratch(); objs = []
         procs = []
-        flags = (['-O1'] + SAN) if sanitize else ['-O2']
+        flags = (['-O1', '-fsanitize=thread', '-g'] if sanitize == 'thread' else ['-O1'] + SAN) if sanitize else ['-O2']
         for src in lib_sources():
-            o = os.path.join(sc, 'lib-%s%s.o' % ('san-' if sanitize else '', os.path.basename(src))); objs.append(o)
+            o = os.path.join(sc, 'lib-%s%s.o' % (('tsan-' if sanitize == 'thread' else 'san-') if sanitize else '', os.path.basename(src))); objs.append(o)
             procs.append(subprocess.Popen(['g++', '-std=c++14', '-fPIC', '-DNDEBUG', '-w', '-c'] + flags + incflags() + [src, '-o', o], stderr=subprocess.PIPE))
         for p in procs:
             _, err = p.communicate()
             if p.returncode: raise RuntimeError('g++ failed: ' + err.decode()[-2000:])
-        out = os.path.join(sc, 'libGeographicLib_vf%s.so' % ('_san' if sanitize else ''))
-        subprocess.check_call(['g++', '-shared', '-o', out] + (SAN if sanitize else []) + objs)
+        out = os.path.join(sc, 'libGeographicLib_vf%s.so' % (('_tsan' if sanitize == 'thread' else '_san') if sanitize else ''))
+        subprocess.check_call(['g++', '-shared', '-o', out] + ((['-fsanitize=thread'] if sanitize == 'thread' else SAN) if sanitize else []) + objs)
         _libso[sanitize] = out
     return _libso[sanitize]
 
